@@ -331,9 +331,9 @@ func streamReq(c *Ctx) {
 				tmo := ""
 				if r.Chance(15) {
 					if proto == "connect" {
-						tmo = []string{"5000", "abc", "99999999999", "-5", ""}[r.Intn(5)]
+						tmo = []string{"5000", "abc", "99999999999", "-5", "", "0", "-0", "+5000"}[r.Intn(8)]
 					} else {
-						tmo = []string{"5S", "5", "S", "999999999S", "-1S", "5x", "100m"}[r.Intn(7)]
+						tmo = []string{"5S", "5", "S", "999999999S", "-1S", "5x", "100m", "0S", "0n", "00000000H"}[r.Intn(10)]
 					}
 				}
 				cuts := randomCuts(r, len(flat), r.Intn(4))
